@@ -162,17 +162,108 @@ def run(res: C.Result):
             dis += 1
             if dis <= 8:
                 res.broken("correspondence:Calc.run", {"case": cases[k], "model[evals,cfg,last_e,cres]": g, "impl": {"evaluations": evals, "final_geometry_token": gtok}})
+    kcorr = keys_correspondence(res, quick)
     res.coverage.update(
-        evaluations=dist["trials"], distinct_nontrivial=len(distinct),
+        evaluations=dist["trials"] + kcorr["cases"], distinct_nontrivial=len(distinct),
         rule="generated programs on all five ensembles with four calculator styles (result-caching ASE Calculator, stateless, per-atom internal table that must "
              "match the atoms, ASE LennardJones with neighbour list), Hookean (energy-contributing) constraint on a third of the canonical/isobaric programs, "
              "scripted verdicts, vetoing check_move; after EVERY trial: independent calculator on atoms.copy(); non-trivial = distinct (program, trial)",
         correspondence={"flavour": "functional on the outcome sequence: Calc.run (vm_compute) must reproduce the evaluation counter and the final configuration / reference energy tokens",
-                        "cases": len(meta), "agreed": agree, "disagreed": dis, "undecided": 0},
+                        "cases": len(meta), "agreed": agree, "disagreed": dis, "undecided": 0,
+                        "results_dictionary (Model/CalcKeys.v)": kcorr},
         direct_oracle={"evaluations": dist["trials"], "failures": len(res.failures)}, input_distribution=dist)
     res.samples += [{"program": {x: cases[i][x] for x in ("ensemble", "calc", "moves")}, "trials": [{"name": t["name"], "outcome": t["outcome"], "energy": t["energy"]} for t in results[i].get("trials", [])[:3]]} for i in (0, 2)]
     res.assumptions += ["the evaluation-count clause is checked for result-caching calculators (a stateless calculator recomputes on every request by definition) and not for Hamiltonian moves (as the property says)",
                         "a configuration counts as changed when it differs by more than 1e-12 (ASE's compare_atoms ignores differences below 1e-15: a rotation of a one-atom group about itself is no change)", "energies are compared to 1e-9 relative (an independent instance may sum in another order)"]
+
+
+KHDR = """From QV Require Import Model.CalcKeys.
+Definition tokE (k c : nat) : nat * nat := (k, c).
+Definition enc (d : list (nat * (nat * nat))) (k : nat) : nat :=
+  match lookup nat (nat * nat) Nat.eqb k d with Some (k', c) => if Nat.eqb k' k then S c else 999 | None => 0 end.
+Definition show (s : kst nat nat (nat * nat)) : list nat :=
+  [if in_sync nat nat (nat * nat) Nat.eqb s then 1 else 0; if kalias s then 1 else 0; enc (kres s) 0; enc (kres s) 1; enc (kres s) 2;
+   enc (klast_res s) 0; enc (klast_res s) 1; enc (klast_res s) 2].
+Fixpoint trace (s : kst nat nat (nat * nat)) (ops : list (kop nat nat)) : list nat :=
+  match ops with [] => [] | o :: t => let s' := kstep nat nat (nat * nat) tokE Nat.eqb Nat.eqb 0 false s o in show s' ++ trace s' t end.
+Definition s0 : kst nat nat (nat * nat) := Build_kst 0 None [] false 0 [].
+"""
+
+
+def keys_correspondence(res: C.Result, quick):
+    """Model/CalcKeys.v against the real objects: the same sequences of elementary operations (set positions to configuration i /
+    calc.get_property(key) / context.save_state() / Canonical.revert_state()) on a real Canonical simulation with a calculator that computes
+    only what it is asked for; after EVERY operation: is the calculator in sync, is calc.results the context's saved dictionary, and which
+    configuration does each held / saved value (energy, forces, stress) belong to."""
+    rk = random.Random(res.seed ^ 0xD1C7)
+    designated = [
+        # seeded change C04-11: accepted energy-only trial, rejected trial, rejected trial that asked for the forces
+        [["s"], ["p", 1], ["q", 0], ["s"], ["p", 2], ["q", 0], ["r"], ["p", 3], ["q", 1], ["q", 0], ["r"], ["q", 1], ["p", 4], ["q", 2], ["q", 0], ["r"]],
+        # a key asked for between two trials is in the saved dictionary too (one object)
+        [["s"], ["q", 1], ["p", 1], ["q", 0], ["r"], ["q", 2], ["p", 2], ["q", 1], ["s"], ["p", 0], ["r"]],
+        # a null move (the configuration proposed is the current one), revert twice, save twice
+        [["s"], ["p", 0], ["q", 1], ["r"], ["r"], ["s"], ["s"], ["p", 1], ["p", 0], ["q", 2], ["r"]],
+    ]
+    cases = []
+    for ops in designated:
+        cases.append({"keys_ops": ops})
+    for _ in range(300 if quick else 6000):
+        ops = [["s"]]
+        for _j in range(rk.randint(5, 18)):
+            x = rk.random()
+            ops.append(["p", rk.randint(0, 4)] if x < 0.3 else ["q", rk.choice([0, 0, 1, 1, 2])] if x < 0.65 else ["s"] if x < 0.8 else ["r"])
+        cases.append({"keys_ops": ops})
+    outs = C.run_impl_parallel("c04.py", [{"cases": cases[i::16]} for i in range(16)], timeout=1200)
+    results = [None] * len(cases)
+    for j, o in enumerate(outs):
+        results[j::16] = o["results"]
+
+    def lit(o):
+        return {"p": f"KPropose {o[1] if len(o) > 1 else 0}", "q": f"KRequest {o[1] if len(o) > 1 else 0}", "s": "KSave", "r": "KRevert"}[o[0]]
+    lines = [f"Eval vm_compute in ({j}%nat, trace s0 [{'; '.join(lit(o) for o in c['keys_ops'])}])." for j, c in enumerate(cases)]
+    f = res.workdir / "c04_keys.v"
+    f.write_text(KHDR + "\n".join(lines) + "\n")
+    rc, out, err = C.run_coq_file(f, 1200)
+    if rc != 0:
+        res.broken("correspondence:coq-evaluation(CalcKeys)", err[-1500:])
+        return {"cases": len(cases), "agreed": 0, "disagreed": len(cases)}
+    got = {}
+    for m in re.finditer(r"=\s*\((\d+)(?:%\w+)?,\s*(.*?)\)\s*:\s", out, re.S):
+        got[int(m.group(1))] = [int(x) for x in re.findall(r"\d+", m.group(2))]
+    agree = dis = 0
+    nops = {"p": 0, "q": 0, "s": 0, "r": 0}
+    for j, (c, r) in enumerate(zip(cases, results)):
+        for o in c["keys_ops"]:
+            nops[o[0]] += 1
+        if "exception" in r:
+            res.fail("keys:exception", f"elementary operations raised {r['exception']}: {r['message'][:200]}", {"input": c, "observed": r})
+            continue
+        tr, g = r["trace"], got.get(j)
+        # direct oracle on the implementation alone (what the property says): after a save or a revert the calculator is in sync and every held value
+        # belongs to the configuration the atoms are in (the configuration of the last save)
+        cur = 0
+        saved = 0
+        for i, o in enumerate(c["keys_ops"]):
+            st = tr[8 * i:8 * i + 8]
+            if o[0] == "p":
+                cur = o[1]
+            if o[0] == "s":
+                saved = cur
+            if o[0] == "r":
+                cur = saved
+            if o[0] in ("s", "r") and (st[0] != 1 or any(x not in (0, cur + 1) for x in st[2:5])):
+                res.fail("keys:held-value-of-another-configuration",
+                         f"after operation {i} ({o[0]}) the atoms are in configuration {cur} but the calculator (in sync: {st[0]}) holds [energy, forces, stress] of configurations {[x - 1 if x else None for x in st[2:5]]}",
+                         {"input": c, "operation": i, "observed": tr})
+                break
+        if g == tr:
+            agree += 1
+        else:
+            dis += 1
+            if dis <= 5:
+                res.broken("correspondence:CalcKeys.kstep", {"case": c, "model": g, "impl": tr})
+    return {"flavour": "functional, after every elementary operation: [in sync, results is last_results, configuration of held energy/forces/stress, of saved energy/forces/stress]",
+            "cases": len(cases), "agreed": agree, "disagreed": dis, "operations": nops}
 
 
 def replay(res: C.Result, path):
@@ -182,6 +273,9 @@ def replay(res: C.Result, path):
     if not p:
         print("replay: no concrete input in this file")
         return 1
+    if "keys_ops" in p:
+        print(json.dumps(C.run_impl("c04.py", {"cases": [p]})["results"][0])[:3000])
+        return 0
     r = C.run_impl("c04.py", {"cases": [p]})["results"][0]
     ti = d.get("trial")
     if "exception" in r:
